@@ -57,6 +57,11 @@ type c17case struct {
 
 const localASN = 64999
 
+// optBits is the number of optional/conditional attributes whose presence the "optmix" focus enumerates: MED,
+// ATOMIC_AGGREGATE, AGGREGATOR, COMMUNITIES, LARGE_COMMUNITIES, ONLY_TO_CUSTOMER, a first and a second unknown transitive
+// attribute, ORIGINATOR_ID+CLUSTER_LIST.
+const optBits = 9
+
 var sizes = map[string]int{"aspath": 600, "prepend": 400, "unknown": 700, "cluster": 100, "comms": 900, "lcomms": 300}
 
 func drawSize(rng *rand.Rand, max int) int {
@@ -139,6 +144,10 @@ func genSpec(rng *rand.Rand, s bgpx.Sess, focus string, size int, uid uint32) bg
 	if rng.IntN(4) == 0 {
 		p.Unknown = append(p.Unknown, unk(rng.IntN(20)))
 	}
+	if rng.IntN(4) == 0 {
+		// ONLY_TO_CUSTOMER (RFC 9234): the last recognised optional attribute bio-rd appends before the unknown ones
+		p.OTC = asn(rng, s.AS4)
+	}
 	switch focus {
 	case "aspath":
 		p.ASPath = nil
@@ -185,6 +194,50 @@ func genSpec(rng *rand.Rand, s bgpx.Sess, focus string, size int, uid uint32) bg
 		for i := range p.LComms {
 			p.LComms[i] = [3]uint32{rng.Uint32(), rng.Uint32(), rng.Uint32()}
 		}
+	case "optmix":
+		// size is a bit mask over the attributes a route may or may not carry: every subset is enumerated (see optBits)
+		p.MED, p.Atomic, p.Aggr, p.Comms, p.LComms, p.OTC, p.Unknown, p.OrigID, p.Cluster = 0, false, nil, nil, nil, 0, nil, 0, nil
+		has := func(b int) bool { return size>>uint(b)&1 == 1 }
+		if has(0) {
+			p.MED = 1 + rng.Uint32N(1<<32-1)
+		}
+		p.Atomic = has(1)
+		if has(2) {
+			p.Aggr = &[2]uint32{1 + rng.Uint32N(65000), rng.Uint32()}
+		}
+		if has(3) {
+			for i, n := 0, 1+rng.IntN(3); i < n; i++ {
+				p.Comms = append(p.Comms, comm(rng))
+			}
+		}
+		if has(4) {
+			for i, n := 0, 1+rng.IntN(3); i < n; i++ {
+				p.LComms = append(p.LComms, [3]uint32{rng.Uint32(), rng.Uint32(), rng.Uint32()})
+			}
+		}
+		if has(5) {
+			p.OTC = asn(rng, s.AS4)
+		}
+		if has(6) {
+			p.Unknown = append(p.Unknown, unk(rng.IntN(12)))
+			p.Unknown[0].Type = uint8(100 + rng.IntN(60))
+			if rng.IntN(3) == 0 {
+				p.Unknown[0].Type = 16 // EXTENDED COMMUNITIES: bio-rd keeps them as a raw transitive attribute
+				p.Unknown[0].Value = hex.EncodeToString([]byte{0, 2, byte(rng.IntN(256)), byte(rng.IntN(256)), 0, 0, 0, byte(rng.IntN(256))})
+			}
+		}
+		if has(7) {
+			u := unk(rng.IntN(12))
+			u.Type = uint8(160 + rng.IntN(60))
+			p.Unknown = append(p.Unknown, u)
+		}
+		if has(8) {
+			p.OrigID = 1 + rng.Uint32N(1<<32-2)
+			p.Cluster = []uint32{rng.Uint32()}
+			if rng.IntN(2) == 0 {
+				p.Cluster = append(p.Cluster, rng.Uint32())
+			}
+		}
 	case "mixed":
 		p.ASPath = []bgpx.Seg{{T: 2, A: asns(rng, s.AS4, 1+rng.IntN(200))}}
 		p.Comms = make([]uint32, rng.IntN(200))
@@ -201,7 +254,7 @@ func genSpec(rng *rand.Rand, s bgpx.Sess, focus string, size int, uid uint32) bg
 }
 
 func genCase(rng *rand.Rand, i int) c17case {
-	foci := []string{"aspath", "prepend", "unknown", "cluster", "comms", "lcomms", "mixed", "small", "fill"}
+	foci := []string{"aspath", "prepend", "unknown", "cluster", "comms", "lcomms", "mixed", "small", "fill", "optmix"}
 	focus := foci[i%len(foci)]
 	c := c17case{Mode: "sender", Focus: focus}
 	fam := rng.IntN(3)
@@ -222,6 +275,9 @@ func genCase(rng *rand.Rand, i int) c17case {
 	}
 	if max, ok := sizes[focus]; ok {
 		c.Size = drawSize(rng, max)
+	}
+	if focus == "optmix" {
+		c.Size = (i / len(foci)) % (1 << optBits) // enumerated, not drawn: every subset comes up n/10/512 times
 	}
 	c.Path = genSpec(rng, c.Sess, focus, c.Size, uint32(i+1))
 	u := gen.Universe(rng, !c.Sess.V6, 4)
@@ -304,6 +360,7 @@ func wantNLRIs(s bgpx.Sess, pfxs []gen.P, id uint32) string {
 // stats of one case for the evidence
 type cstat struct {
 	msgs, declined int
+	shortAggr      int // messages judged with a widened 2-octet AGGREGATOR (known finding)
 	maxLen         int
 	nontrivial     bool
 }
@@ -378,12 +435,26 @@ func runSender(c c17case, rep reporter) (st cstat) {
 			continue
 		}
 		last := wi == len(writes)-1
+		shortAggr := false
 		if cul, decl, typ := bgpx.LengthCulprit(body, expLens); cul != "" && !last {
 			rep("attribute-length", asFeat(cul), fmt.Sprintf("%s (%s, focus %s size %d): attribute %s declares %d bytes, which no encoding of the handed content has (allowed %v); message of %d bytes", s, c.Mode, c.Focus, c.Size, cul, decl, expLens[typ], len(w)))
-			broken = true
-			continue
+			// an AGGREGATOR with a 2-octet AS on a 4-octet session is reported above; the attribute is self-delimiting, so
+			// the rest of the message is still aligned and is judged too (with the aggregator widened)
+			if shortAggr = typ == wire.AttrAggregator && decl == 6 && s.AS4; !shortAggr {
+				broken = true
+				continue
+			}
 		}
 		up, err := wire.DecodeUpdate(body, s.WireOpts())
+		if err != nil && shortAggr {
+			var widened bool
+			if up, widened, err = bgpx.DecodeUpdateLenient(body, s.WireOpts()); err == nil && !widened {
+				err = fmt.Errorf("AGGREGATOR of 6 bytes expected")
+			}
+			if err == nil {
+				st.shortAggr++
+			}
+		}
 		if err != nil {
 			rep("reference-decoder-rejects", asFeat(bgpx.Culprit(body, s.WireOpts(), expTypes)), fmt.Sprintf("%s (%s, focus %s size %d): the independent decoder cannot decode what bio-rd wrote (%d bytes): %v", s, c.Mode, c.Focus, c.Size, len(w), err))
 			broken = true
@@ -579,10 +650,10 @@ func runSmall(c c17case, rep reporter) {
 func main() {
 	vf.Main("C17", "exploration", func(r *vf.Run) {
 		bgpx.Quiet()
-		r.Rule("routes with one swept attribute dimension each (AS_PATH 0..600 ASNs in 1..4 segments; Prepend counts 0..400; one unknown transitive attribute of 0..700 bytes; CLUSTER_LIST 0..100; COMMUNITIES 0..900; LARGE_COMMUNITIES 0..300; a mixed block; small; fill = 150..1450 prefixes sharing one path with MED, ATOMIC_AGGREGATE, AGGREGATOR, ORIGINATOR_ID and a CLUSTER_LIST of 0..120 ids, so that messages are filled to the limit), sizes drawn uniformly and from the boundaries of one-byte lengths/counts, x {IPv4, IPv4-MP, IPv6-MP} x {eBGP, iBGP, RR client} x add-path x 2/4-octet AS, 1-4 prefixes; pushed into the real update sender (a quarter of the AS_PATH cases behind a real eBGP Adj-RIB-Out), flushed with EndOfRIB(), then one prefix withdrawn; plus every OPEN capability configuration peer.go can assemble, every NOTIFICATION code/subcode the FSM and the decoder's BGPError values can make bio-rd send, KEEPALIVE. distinct_nontrivial = cases in which bio-rd emitted at least one announcement (it did not decline to serialise), keyed by (focus, size, session)")
+		r.Rule("routes with one swept attribute dimension each (AS_PATH 0..600 ASNs in 1..4 segments; Prepend counts 0..400; one unknown transitive attribute of 0..700 bytes; CLUSTER_LIST 0..100; COMMUNITIES 0..900; LARGE_COMMUNITIES 0..300; a mixed block; small; optmix = EVERY subset of the 9 optional/conditional attributes {MED, ATOMIC_AGGREGATE, AGGREGATOR, COMMUNITIES, LARGE_COMMUNITIES, ONLY_TO_CUSTOMER, a first unknown transitive attribute (a third of them EXTENDED COMMUNITIES, type 16), a second unknown attribute, ORIGINATOR_ID+CLUSTER_LIST} enumerated (512 subsets, each several times over the session kinds), and a quarter of all other routes carry ONLY_TO_CUSTOMER; fill = 150..1450 prefixes sharing one path with MED, ATOMIC_AGGREGATE, AGGREGATOR, ORIGINATOR_ID and a CLUSTER_LIST of 0..120 ids, so that messages are filled to the limit), sizes drawn uniformly and from the boundaries of one-byte lengths/counts, x {IPv4, IPv4-MP, IPv6-MP} x {eBGP, iBGP, RR client} x add-path x 2/4-octet AS, 1-4 prefixes; pushed into the real update sender (a quarter of the AS_PATH cases behind a real eBGP Adj-RIB-Out), flushed with EndOfRIB(), then one prefix withdrawn; plus every OPEN capability configuration peer.go can assemble, every NOTIFICATION code/subcode the FSM and the decoder's BGPError values can make bio-rd send, KEEPALIVE. distinct_nontrivial = cases in which bio-rd emitted at least one announcement (it did not decline to serialise), keyed by (focus, size, session)")
 		r.Assume("2-octet-AS sessions carry only ASNs below 65536 (bio-rd has no AS4_PATH; the statement does not define the content then)",
 			"how an AS_SEQUENCE is cut into segments is encoding, not content: adjacent sequences are compared merged",
-			"MED 0 may be omitted; LOCAL_PREF towards eBGP and ORIGINATOR_ID/CLUSTER_LIST towards a non-client may be omitted; attribute flags of recognised attributes are not content",
+			"ONLY_TO_CUSTOMER is content: it goes out with the value handed in (the sender is driven directly, or behind an Adj-RIB-Out without RFC 9234 roles, which does not touch it)", "MED 0 may be omitted; LOCAL_PREF towards eBGP and ORIGINATOR_ID/CLUSTER_LIST towards a non-client may be omitted; attribute flags of recognised attributes are not content",
 			"an unknown attribute's Partial bit must survive when it was set on the stored path (RFC 4271: once set it is never cleared)")
 		var vmu sync.Mutex
 		mk := func(c c17case) reporter {
@@ -605,6 +676,7 @@ func main() {
 		n := r.N(30000, 1000000)
 		perFocus := map[string]int{}
 		perSess := map[string]int{}
+		optMasks := map[int]int{}
 		var mu sync.Mutex
 		vf.Parallel(n, 8, func(i int) {
 			rng := r.RandN("c17", i)
@@ -613,6 +685,7 @@ func main() {
 			r.Eval(st.msgs)
 			r.Count("routes", 1)
 			r.Count("declined_to_serialise", st.declined)
+			r.Count("messages_judged_despite_two_octet_aggregator", st.shortAggr)
 			r.Max("max_message_bytes", int64(st.maxLen))
 			if st.nontrivial {
 				r.Nontrivial(fmt.Sprintf("%s/%d/%s/%s", c.Focus, c.Size, c.Sess, c.Mode))
@@ -621,7 +694,25 @@ func main() {
 			mu.Lock()
 			perFocus[c.Focus]++
 			perSess[c.Sess.Family()+"/"+c.Sess.Kind()]++
+			if st.nontrivial && c.Focus == "optmix" {
+				optMasks[c.Size]++
+			}
 			mu.Unlock()
+			if st.nontrivial {
+				// the tail of the attribute list: which of the attributes bio-rd appends last went out together
+				tail := 0
+				for _, b := range []bool{len(c.Path.Comms) > 0, len(c.Path.LComms) > 0, c.Path.OTC != 0, len(c.Path.Unknown) > 0} {
+					if b {
+						tail++
+					}
+				}
+				if tail >= 2 {
+					r.Count("routes_announced_with_two_or_more_of_communities_largecommunities_otc_unknown", 1)
+				}
+				if c.Path.OTC != 0 && len(c.Path.Unknown) > 0 {
+					r.Count("routes_announced_with_otc_and_unknown_attribute", 1)
+				}
+			}
 			if i < 3 {
 				r.Sample(map[string]any{"mode": c.Mode, "session": c.Sess.String(), "focus": c.Focus, "size": c.Size, "prefixes": len(c.Pfxs), "messages": st.msgs})
 			}
@@ -654,6 +745,10 @@ func main() {
 		r.Eval(1)
 		r.Set("routes_by_focus", perFocus)
 		r.Set("routes_by_session", perSess)
+		r.Count("optmix_subsets_announced", len(optMasks))
+		r.Set("optmix_subsets_total", 1<<optBits)
 		r.Require("routes_announced", int64(n/2))
+		r.Require("optmix_subsets_announced", 1<<optBits)
+		r.Require("routes_announced_with_otc_and_unknown_attribute", int64(n/100))
 	})
 }
